@@ -1,26 +1,48 @@
 //! Correspondence harness: runs the real skim code in-process.
 //! stdin: one request per line `<prop>\t<case>`; stdout: one answer line per request.
+#[cfg(feature = "c01")]
 mod c01;
+#[cfg(feature = "c09")]
 mod c09;
+#[cfg(feature = "c10")]
 mod c10;
+#[cfg(feature = "c16")]
 mod c16;
+#[cfg(any(feature = "c08", feature = "c09", feature = "c11"))]
 mod canvas;
+#[cfg(feature = "c13")]
 mod c13;
+#[cfg(feature = "c12")]
 mod c12;
+#[cfg(feature = "c02")]
 mod c02;
+#[cfg(feature = "c03")]
 mod c03;
+#[cfg(feature = "c04")]
 mod c04;
+#[cfg(feature = "c19")]
 mod c19;
+#[cfg(feature = "c20")]
 mod c20;
+#[cfg(feature = "c20")]
 mod c20e;
+#[cfg(feature = "c06")]
 mod c06;
+#[cfg(feature = "c07")]
 mod c07;
+#[cfg(feature = "c17")]
 mod c17;
+#[cfg(feature = "c11")]
 mod c11;
+#[cfg(feature = "c08")]
 mod c08;
+#[cfg(feature = "c15")]
 mod c15;
+#[cfg(feature = "c18")]
 mod c18;
+#[cfg(feature = "c01")]
 mod session;
+#[allow(dead_code)]
 mod util;
 
 use std::io::{BufRead, Write};
@@ -28,24 +50,43 @@ use std::panic;
 
 fn dispatch(prop: &str, case: &str) -> String {
     match prop {
+        #[cfg(feature = "c01")]
         "C01" | "C14" | "C05" | "C10S" | "C20S" => c01::run(case),
+        #[cfg(feature = "c09")]
         "C09" => c09::run(case),
+        #[cfg(feature = "c10")]
         "C10" => c10::run(case),
+        #[cfg(feature = "c16")]
         "C16" => c16::run(case),
+        #[cfg(feature = "c13")]
         "C13" => c13::run(case),
+        #[cfg(feature = "c12")]
         "C12" => c12::run(case),
+        #[cfg(feature = "c02")]
         "C02" => c02::run(case),
+        #[cfg(feature = "c03")]
         "C03" => c03::run(case),
+        #[cfg(feature = "c04")]
         "C04" => c04::run(case),
+        #[cfg(feature = "c19")]
         "C19" => c19::run(case),
+        #[cfg(feature = "c20")]
         "C20" if case.starts_with("E~") => c20e::run(case),
+        #[cfg(feature = "c20")]
         "C20" => c20::run(case),
+        #[cfg(feature = "c06")]
         "C06" => c06::run(case),
+        #[cfg(feature = "c07")]
         "C07" => c07::run(case),
+        #[cfg(feature = "c17")]
         "C17" => c17::run(case),
+        #[cfg(feature = "c11")]
         "C11" => c11::run(case),
+        #[cfg(feature = "c08")]
         "C08" => c08::run(case),
+        #[cfg(feature = "c15")]
         "C15" => c15::run(case),
+        #[cfg(feature = "c18")]
         "C18" => c18::run(case),
         _ => "error:unknown-property".into(),
     }
